@@ -449,3 +449,6 @@ def run(ctx):
     ctx.extra['grid_sweep'] = 'the complete C06 structural grid (every length/type combination at every nesting level) delivered as IKE_SA_INIT requests'
     ctx.extra['trigger_grid'] = f'{len(tg)} cases: every pair of local triggers (incl. status query and EXPIRE by outbound SPI) followed by a third, around deliveries'
     ctx.extra['fault_enumeration'] = f'{len(fe)} cases: 4 send failures and 4 netlink errno values at call indices 1..11 of an 18-step scenario'
+    if not ctx.quick:
+        import sys as _sys
+        common.hyp_fuzz_stage(ctx, _sys.modules[__name__], 'cases()')
